@@ -1,7 +1,8 @@
 (* C05 Binary operators match, label, filter and fail exactly as the reference engine.
-   Property theorems only; proofs in FuncProofs.v. Partial: see the note below. *)
+   Property theorems only; proofs in FuncProofs.v and BinProofs.v. Partial: see the note at the end. *)
 From Coq Require Import List String ZArith NArith Bool.
-From Verif Require Import Base Agg Func FuncProofs.
+From Coq Require Import Lia.
+From Verif Require Import Base Agg Func FuncProofs Bin BinProofs.
 Import ListNotations.
 Close Scope Z_scope.
 
@@ -32,9 +33,82 @@ Theorem C05_drops_name_table :
 Proof. exact drops_name_table. Qed.
 Print Assumptions C05_drops_name_table.
 
-(* PARTIAL. The vector/vector join (hash join built once over the series lists,
-   per-step table with timestamp tags, error detection) is not modelled: the
-   pinned engine deviates from the reference whenever two series of one side
-   share a matching signature (known finding F20), so the full statement is
-   false of a faithful model; outside that guard the property is decided by the
-   reference oracle (profile bin) and the signature guard of harness/classify.go. *)
+(* ---- the vector/vector operator (Bin.v: hash join built once over the series
+   lists, per-step table with timestamp tags, output labels, many-to-many
+   errors; compared with the real operator on every run) ---------------------- *)
+
+(* For one-to-one and many-to-one (group_left) matching, every step of a query
+   - any number of steps, strictly increasing timestamps - is the table-free
+   pairing of the samples with equal signatures: the timestamp tags of the
+   reused table never carry a value from one step into another. Hypotheses:
+   sample IDs are distinct and in range, and the signatures of the "one" side's
+   SERIES are pairwise distinct (where they are not, the pinned engine deviates:
+   known finding F20, refuted below). *)
+Theorem C05_table_is_pairing :
+  forall (V : Type) (dflt : V) (op : V -> V -> V * bool) (b2v : bool -> V) (on : bool) (ml incl : list N)
+         (c : card) (return_bool op_drops_name : bool) (lhs_series rhs_series : list labels),
+  is_one_to_many c = false -> one_side_unique on ml rhs_series ->
+  forall steps prev, (noT <= prev)%Z -> increasing V prev steps -> Forall (good_step V lhs_series rhs_series) steps ->
+  run_operator V dflt op b2v on ml incl c return_bool op_drops_name lhs_series rhs_series steps =
+  inl (map (fun s => (fst (fst s),
+                      relabel V on ml incl c return_bool op_drops_name lhs_series rhs_series
+                        (pure_step V op b2v c return_bool (op_hidx on ml c lhs_series rhs_series)
+                                   (op_lidx on ml c lhs_series rhs_series) (snd (fst s)) (snd s)))) steps).
+Proof. exact run_operator_is_pairing. Qed.
+Print Assumptions C05_table_is_pairing.
+
+(* ... and at every step at which the reference engine's VectorBinop succeeds,
+   that pairing contains exactly the reference's samples: same label sets
+   (resultMetric, including group_left labels and the metric-name rule), same
+   values, same filtering by comparisons, bool as 0/1. *)
+Theorem C05_join_matches_reference :
+  forall (V : Type) (op : V -> V -> V * bool) (b2v : bool -> V) (on : bool) (ml incl : list N)
+         (c : card) (return_bool op_drops_name : bool) (lhs_series rhs_series : list labels),
+  is_one_to_many c = false -> one_side_unique on ml rhs_series ->
+  (is_one_to_one c = true -> incl = []) ->
+  forall (s : Z * list (nat * V) * list (nat * V)) out, good_step V lhs_series rhs_series s ->
+  ref_operator_step V op b2v on ml incl c return_bool op_drops_name lhs_series rhs_series (snd (fst s)) (snd s) = Some out ->
+  forall m v,
+    In (m, v) (relabel V on ml incl c return_bool op_drops_name lhs_series rhs_series
+                 (pure_step V op b2v c return_bool (op_hidx on ml c lhs_series rhs_series)
+                            (op_lidx on ml c lhs_series rhs_series) (snd (fst s)) (snd s))) <->
+    In (m, v) out.
+Proof. exact run_operator_matches_reference. Qed.
+Print Assumptions C05_join_matches_reference.
+
+(* the label sets of the output series are the reference's resultMetric *)
+Theorem C05_output_labels :
+  forall on ml incl c return_bool op_drops_name lm rm,
+  (is_one_to_one c = true -> incl = []) ->
+  build_output incl return_bool (the_lbl on ml c return_bool op_drops_name lm) rm =
+  ref_result_metric op_drops_name return_bool c on ml incl lm rm.
+Proof. exact labels_agree. Qed.
+Print Assumptions C05_output_labels.
+
+(* Known finding F20, as a theorem about the model: when two series of the "one"
+   side share a signature (never at the same step), the engine copies the
+   included label from the first of them, the reference from the one present.
+   1 = a, 3 = c; rhs series {a=20,c=41} and {a=20,c=42}; only the second has a sample. *)
+Theorem C05_series_level_join_refuted :
+  exists lhs_series rhs_series lhs rhs,
+    let mul (a b : Z) := ((a * b)%Z, true) in
+    let b2z (b : bool) := if b then 1%Z else 0%Z in
+    good_step Z lhs_series rhs_series (0%Z, lhs, rhs) /\
+    run_operator Z 0%Z mul b2z true [1%N] [3%N] ManyToOne false true lhs_series rhs_series [(0%Z, lhs, rhs)] =
+      inl [(0%Z, [([(1, 20); (3, 41)]%N, 6%Z)])] /\
+    ref_operator_step Z mul b2z true [1%N] [3%N] ManyToOne false true lhs_series rhs_series lhs rhs =
+      Some [([(1, 20); (3, 42)]%N, 6%Z)].
+Proof.
+  exists [[(0, 10); (1, 20)]%N], [[(0, 11); (1, 20); (3, 41)]; [(0, 11); (1, 20); (3, 42)]]%N, [(0, 2%Z)], [(1, 3%Z)].
+  cbv zeta. split; [|split; vm_compute; reflexivity].
+  unfold good_step; simpl; repeat split; try (intros iv H; intuition (subst; simpl; lia));
+    repeat (apply NoDup_cons; [simpl; intuition lia|]); apply NoDup_nil.
+Qed.
+Print Assumptions C05_series_level_join_refuted.
+
+(* PARTIAL. One-to-many (group_right) matching is covered by the model and the
+   correspondence check but not by the two theorems above (the proof is the
+   mirror image); values of the arithmetic operators are IEEE doubles in the
+   correspondence check and abstract in the theorems; the reference's behaviour
+   on inputs where it fails (duplicate signatures at a step) is not related to
+   the engine's errors by a theorem: the engine deviates there (F20). *)
